@@ -318,6 +318,45 @@ def three_finite_dims_view(form: int, a: int, b: int, n: int) -> bool:
     return _once(log)
 
 
+def view_requests(form: int, a: int, n: int, m: int) -> bool:
+    """
+    pre: 0 <= form <= 5 and -2 <= a <= 1 and 0 <= n <= 2 and 0 <= m <= 2
+    post: _
+    """
+    # requests ON a finite-dimension-only view (slices / lists / negative indices over the view; two infinite dimensions; view of a view)
+    form, a, n, m = _c(form, 0, 5), _c(a, -2, 1), _c(n, 0, 2), _c(m, 0, 2)
+    log = []
+    if form <= 2:
+        shape, ninf = (2, 3), 1
+        s = _mk(shape, ninf, log)
+        d = _dense(shape, ninf)
+        if form == 0:  # slice request over a sliced view
+            view, exp = s[:, 1:], d[:, 1:][a, :, : n + 1]
+            got = view[a, :, : n + 1]
+        elif form == 1:  # list request over a list view
+            view, exp = s[[1, 0], :], d[[1, 0], :][[a, 0], [m, 1], n]
+            got = view[[a, 0], [m, 1], n]
+        else:  # view of a view
+            view, exp = s[:, ::2][1:, :], d[:, ::2][1:, :][0, a, n]
+            got = view[0, a, n]
+    else:
+        shape, ninf = (2, 2), 2
+        s = _mk(shape, ninf, log)
+        d = _dense(shape, ninf)
+        if form == 3:
+            view, exp = s[a, :], d[a, :][1, n, m]
+            got = view[1, n, m]
+        elif form == 4:
+            view, exp = s[:, [a]], d[:, [a]][:, 0, : n + 1, m]
+            got = view[:, 0, : n + 1, m]
+        else:
+            view, exp = s[a, 1], d[a, 1][n, : m + 1]
+            got = view[n, : m + 1]
+    if not isinstance(view, BlockSeries):
+        return False
+    return _same(got, exp) and _once(log)
+
+
 def empty_list_request(where: int, i: int, n: int) -> bool:
     """
     pre: 0 <= where <= 2 and -2 <= i <= 1 and 0 <= n <= 2
